@@ -401,7 +401,7 @@ theorem Inv.setTh_plain {C W : List Nat} {top : Option Nat} {s : State} (h : Inv
   | some th =>
     have hrec := hok th hth
     have := h.setTh (C' := C) (W' := W) (top' := top) t f th s.timer hth hpar hrec hdead
-      (h.tim.setTh_same t f hts) (fun x m _ => m) (fun x m _ => m) (Or.inr rfl)
+      (h.tim.setTh_same t f hts) (fun x m _ => m) (fun x m _ => m) (Or.inr (Or.inl rfl))
       (fun ho => by
         rcases h.lnk.linkC t ho with m | ⟨th0, h0, hw⟩
         · exact Or.inl m
